@@ -12,17 +12,18 @@ TRUSTED = [
     'Model/QR.lean, Model/Micro.lean, Model/RMQR.lean (+ Sym, Codec, Bits, Bitmap, RS): hand transcriptions tied by differential runs on generated descriptions',
     'generators use the reference capacity tables of checks/refqr.py, refmicro.py (independent) and, for rMQR, the regenerated tables',
 ]
-ASSUMPTIONS = ['the full round-trip theorem for arbitrary payloads is not proved end-to-end; Props/C01.lean carries the proved components']
-PARTIAL = ('component theorems (placement walk of encoder and decoder visit the same modules for every version; interleave/de-interleave inverse for every block structure; '
-           'clean RS blocks pass; codec inverses from C17; mask involution from C18) are proved; their composition into one statement for all payloads is not')
+ASSUMPTIONS = ['Micro QR and rMQR: the end-to-end theorem is not proved yet (QR is); they are covered by the differential round trips']
+PARTIAL = ('roundtrip_QR is proved in full for every valid description (unbounded payloads, all 160 (version, level) pairs, explicit and automatic masks); '
+           'the Micro QR and rMQR statements are exercised by differential round trips only')
 MANIFEST = {
-    'technique': 'Lean 4: kernel-evaluated per-version placement/interleave facts + proved component lemmas (C13/C16/C17/C18); differential round trips over all configurations',
-    'text': ('QRV/Props/C01.lean proves the configuration-dependent halves of the round trip for every version of every symbology by kernel evaluation (the encoder\'s and the '
-             'decoder\'s walks visit the same data modules in the same order, none of them a function module, enough of them for all codewords; de-interleaving inverts '
-             'interleaving for every block structure of the capacity tables) and imports the payload-dependent halves proved for all inputs in C13 (clean codewords have zero '
-             'syndromes), C16 (bit FIFO), C17 (codec inverses) and C18 (mask involution). The end-to-end composition is exercised by differential round trips over every '
-             '(version, level) pair and mask with structured payloads, on both the implementation and the model.'),
-    'note': 'Trusted: Lean kernel; hand-written symbol models (tied by correspondence); composition of the component theorems into one statement is exploration-level.',
+    'technique': 'Lean 4: full round-trip theorem for QR (stream layout/parse, block split/interleave inverse, placement walk, format, mask involution, clean RS blocks) from generic lemmas + kernel-evaluated per-version facts; differential round trips for all three symbologies',
+    'text': ('QRV/Props/C01.lean proves roundtrip_QR: for the function-for-function model of the QR encoder and decoder, EVERY valid description (Spec.Valid: versions 1-40, four levels, '
+             'explicit or automatic mask, any list of segments valid for their modes whose standard bit length fits) encodes successfully and decodes to the same version, level, mask and '
+             'segments - by composing proved components: the stream is the standard\'s and parses back (C16/C17), blocks split/interleave and de-interleave inversely, encoder and decoder walks '
+             'visit the same modules (generic walk lemma + kernel-evaluated fuel/length facts for all 40 versions), format information reads back (C11), masking is an involution on data modules '
+             '(C18), clean blocks pass the RS decoder (C14). Micro QR and rMQR are not yet proved end-to-end; all three symbologies are exercised by differential round trips over every '
+             '(version, level) pair, masks and structured payloads, on implementation and model.'),
+    'note': 'Trusted: Lean kernel; hand-written symbol models tied by correspondence on generated descriptions; Micro QR / rMQR round trip is exploration-level.',
 }
 
 
